@@ -63,6 +63,16 @@ class PureMachine(MachineMixin, RuleBasedStateMachine):
         self.trace.append(["construct", fam, arg])
         self.step(self._construct, fam, arg)
 
+    @precondition(lambda self: 0 < len(self.pool) < 8)
+    @rule(i=st.integers(0, 7))
+    def construct_sibling(self, i):
+        # one more instance of a member that already has one (a third, a fourth ...): all of them are the same function
+        fam, key, _ = self.pool[i % len(self.pool)]
+        arg = eval(key)          # repr of None / int / tuple of ints, produced by _construct
+        self.trace.append(["construct", fam, arg])
+        self.step(self._construct, fam, arg)
+        self.cls.add("sibling-instance")
+
     def _construct(self, fam, arg):
         p = bench.construct(fam, tuple(arg) if isinstance(arg, (list, tuple)) else arg)
         self.pool.append((fam, repr(arg), p))
